@@ -103,8 +103,15 @@ static void run_c14s(long cases) {
         for (int workers : {1, 4}) {
             if (((long)li * 2 + (workers == 4)) % g_opts.nshards != g_opts.shard) continue;
             Http::Endpoint ep(Address(Ipv4::loopback(), Port(0)));
-            ep.init(Http::Endpoint::options().threads(workers).flags(Tcp::Options::ReuseAddr).maxRequestSize(L));
-            ep.setHandler(Http::make_handler<IdHandler>());
+            // every way the API offers to configure the limit: the option or its deprecated alias, given before or after the handler
+            int how = (int)((li * 2 + (workers == 4)) % 4);
+            auto opts = Http::Endpoint::options().threads(workers).flags(Tcp::Options::ReuseAddr);
+#pragma GCC diagnostic push
+#pragma GCC diagnostic ignored "-Wdeprecated-declarations"
+            if (how % 2 == 0) opts.maxRequestSize(L); else opts.maxPayload(L);
+#pragma GCC diagnostic pop
+            if (how < 2) { ep.init(opts); ep.setHandler(Http::make_handler<IdHandler>()); } else { ep.setHandler(Http::make_handler<IdHandler>()); ep.init(opts); }
+            count(std::string("limit_configured_via_") + (how % 2 ? "maxPayload" : "maxRequestSize") + (how < 2 ? "_before_handler" : "_after_handler"));
             ep.serveThreaded();
             int port = ep.getPort();
             for (long n = 0; n < cases; n++) {
@@ -166,7 +173,7 @@ static void run_c14t(long cases) {
         std::vector<std::thread> th;
         std::mutex rm; std::vector<std::pair<std::string, std::string>> results;   // (key or "", witness)
         double minT = std::min(H, B);
-        for (int kind = 0; kind < 9; kind++) {
+        for (int kind = 0; kind < 10; kind++) {
             long myidx = idx++;
             th.emplace_back([&, kind, myidx] {
                 std::string kn; std::string key;
@@ -207,6 +214,13 @@ static void run_c14t(long cases) {
                 case 8: { kn = "second-request-straddles-the-connections-age";   // starts before the connection is a time-out old, ends after, but is itself quick
                         c.send_all(head + body); expect200(kn); if (!key.empty()) break; buf.clear();
                         lv::msleep((int)(minT * 700)); t0 = lv::now(); c.send_all(head); lv::msleep((int)(minT * 600)); c.send_all(body); expect200(kn); break; }
+                case 9: { kn = "body-trickled-past-the-body-timeout";   // every gap is short, the whole request takes too long: the time-out counts from the start of the request
+                        c.send_all(head);
+                        std::atomic<bool> stopTrickle{false};
+                        std::thread trickle([&] { for (int j = 0; j < 9 && !stopTrickle.load(); j++) { for (int q = 0; q < 40 && !stopTrickle.load(); q++) lv::msleep((int)(B * 10)); if (stopTrickle.load() || !c.send_all(body.substr((size_t)j, 1))) break; } });
+                        expect408(B, kn);
+                        stopTrickle = true; trickle.join();
+                        break; }
                 default: kn = "body-after-header-timeout-within-body-timeout";
                         if (B > H) { c.send_all(head); lv::msleep((int)((H + 0.3) * 1000)); if (lv::now() - t0 < B - 0.4) { c.send_all(body); expect200(kn); } }
                         else { c.send_all(head + body); expect200(kn); }
@@ -223,7 +237,7 @@ static void run_c14t(long cases) {
             count("timeout_cases");
             if (g_samples_left > 0) { g_samples_left--; sample(kv.second); }
         }
-        for (int kind = 0; kind < 9; kind++) g_distinct.add(std::to_string(H) + "|" + std::to_string(B) + "|" + std::to_string(kind) + "|" + std::to_string(workers));
+        for (int kind = 0; kind < 10; kind++) g_distinct.add(std::to_string(H) + "|" + std::to_string(B) + "|" + std::to_string(kind) + "|" + std::to_string(workers));
         ep.shutdown();
     }
 }
